@@ -4,6 +4,7 @@ import (
 	"bytes"
 	"encoding/hex"
 	"fmt"
+	"io"
 	"reflect"
 	"sort"
 	"strconv"
@@ -112,6 +113,7 @@ func runC19(r *Result, d *drv.Driver, tier string, seed int64, replay string) {
 	c19WireBig(r)
 	c19Reuse(r)
 	c19Concurrent(r)
+	c19WriteFaults(r)
 	if len(parts) == 2 && parts[1] != "" {
 		for _, e := range strings.Split(parts[1], ";") {
 			f := strings.Split(e, "|")
@@ -473,6 +475,29 @@ func c18OtherKeys(r *Result) {
 		}
 	}
 	r.Stats["annotation-other-key-probes"] = len(names) * 2 * 2 * len(forms) * 2
+	// several options after the name - `NAME,required,skip` (must be there, value not looked at), options the codec does not know
+	// (`NAME,required,omitempty`): the name is what precedes the FIRST comma
+	for _, x := range names {
+		if x == "-" || x == "ANY_TAG" {
+			continue
+		}
+		for _, v := range []int32{0, 5} {
+			r.Evaluations += 3
+			want := enc(`kmip:"ACTIVATION_DATE"`, reflect.StructTag(fmt.Sprintf(`kmip:"%s,required"`, x)), v)
+			for _, opts := range []string{",required,omitempty", ",omitempty,required"} {
+				if got := enc(`kmip:"ACTIVATION_DATE"`, reflect.StructTag(fmt.Sprintf(`kmip:"%s%s"`, x, opts)), v); got != want && bad < 5 {
+					bad++
+					r.find(Finding{Kind: "violation", What: "the field annotation kmip:\"" + x + opts + "\" does not resolve to the number of " + x + " (several options after the name)",
+						Input: map[string]string{"annotation": x + opts, "field value": fmt.Sprint(v)}, Expect: want, Actual: got})
+				}
+			}
+			wantOwn := enc(reflect.StructTag(fmt.Sprintf(`kmip:"%s"`, x)), `kmip:"BATCH_COUNT,required"`, v)
+			if got := enc(reflect.StructTag(fmt.Sprintf(`kmip:"%s,foo,bar"`, x)), `kmip:"BATCH_COUNT,required"`, v); got != wantOwn && bad < 5 {
+				bad++
+				r.find(Finding{Kind: "violation", What: "the struct annotation kmip:\"" + x + ",foo,bar\" does not resolve to the number of " + x, Input: map[string]string{"annotation": x + ",foo,bar"}, Expect: wantOwn, Actual: got})
+			}
+		}
+	}
 }
 
 // c18MarkerForms: the struct-level annotation in each form Go allows its carrier to take - the embedded Tag field the
@@ -1057,6 +1082,75 @@ func c18Embedded(r *Result) {
 		tgt := reflect.New(reflect.TypeOf(c.v).Elem())
 		if err := kmip.NewDecoder(bytes.NewReader(written)).Decode(tgt.Interface()); err != nil {
 			r.find(Finding{Kind: "violation", What: "bytes written for a struct embedding annotated struct types are not accepted back", Input: key, Actual: err.Error()})
+		}
+	}
+}
+
+// partialWriter accepts only the first `take` bytes of its k-th Write and reports a fault (temporary or not); every other
+// Write goes through.
+type partialWriter struct {
+	buf     bytes.Buffer
+	n, k    int
+	take    int
+	err     error
+	tripped bool
+}
+
+func (w *partialWriter) Write(p []byte) (int, error) {
+	w.n++
+	if w.n == w.k {
+		w.tripped = true
+		t := w.take
+		if t > len(p) {
+			t = len(p)
+		}
+		w.buf.Write(p[:t])
+		return t, w.err
+	}
+	return w.buf.Write(p)
+}
+
+// c19WriteFaults: a destination that takes part of one Write and reports a fault - a temporary net.Error, a timeout, a plain
+// error. Whatever Encode does about it: if it reports success, what the destination holds IS the message - every item under its
+// tag at its level, byte for byte the fault-free encoding; if it reports the error, what the destination holds is a prefix of it.
+func c19WriteFaults(r *Result) {
+	ver := kmip.ProtocolVersion{Major: 1, Minor: 4}
+	msgs := []interface{}{
+		&kmip.Request{Header: kmip.RequestHeader{Version: ver, BatchCount: 1}, BatchItems: []kmip.RequestBatchItem{{Operation: kmip.OPERATION_GET, RequestPayload: kmip.GetRequest{UniqueIdentifier: "49a1ca88-6bea-4fb2-b450-7e58802c3038"}}}},
+		&kmip.Response{Header: kmip.ResponseHeader{Version: ver, TimeStamp: time.Unix(1000000000, 0), BatchCount: 1},
+			BatchItems: []kmip.ResponseBatchItem{{Operation: kmip.OPERATION_DESTROY, ResultStatus: kmip.RESULT_STATUS_SUCCESS, ResponsePayload: kmip.DestroyResponse{UniqueIdentifier: "fb4b5b9c"}}}},
+	}
+	faults := []struct {
+		name string
+		err  error
+	}{{"a temporary net.Error", tempNetErr{false}}, {"a temporary timeout", tempNetErr{true}}, {"io.ErrShortWrite", io.ErrShortWrite}, {"a plain error", fmt.Errorf("disk full")}}
+	bad := 0
+	for _, m := range msgs {
+		ref := &partialWriter{k: -1}
+		if err := kmip.NewEncoder(ref).Encode(m); err != nil {
+			r.find(Finding{Kind: "disagreement", What: "c19WriteFaults: a scenario message does not encode", Actual: err.Error()})
+			return
+		}
+		want := append([]byte(nil), ref.buf.Bytes()...)
+		for k := 1; k <= ref.n; k++ {
+			for _, take := range []int{0, 1, 3, 7} {
+				for _, ft := range faults {
+					key := fmt.Sprintf("%T encoded into a destination whose Write call %d of %d takes %d byte(s) and reports %s", m, k, ref.n, take, ft.name)
+					r.eval(key, true)
+					pw := &partialWriter{k: k, take: take, err: ft.err}
+					err := kmip.NewEncoder(pw).Encode(m)
+					r.Stats["write-fault-encodes"]++
+					got := pw.buf.Bytes()
+					switch {
+					case err == nil && !bytes.Equal(got, want) && bad < 4:
+						bad++
+						r.find(Finding{Kind: "violation", What: "Encode reported success but what reached the destination is not the message: items no longer under their tags / at their levels", Input: key, Expect: hx(want), Actual: hx(got)})
+					case err != nil && !bytes.HasPrefix(want, got) && bad < 4:
+						bad++
+						r.find(Finding{Kind: "violation", What: "after a failed write the destination holds bytes that are no prefix of the message", Input: key, Expect: "a prefix of " + hx(want), Actual: hx(got)})
+					}
+				}
+			}
 		}
 	}
 }
